@@ -9,6 +9,18 @@ CLAIMED = {
          "any pool size is sound for this direction; sampling of instances above 12 per term"),
  "C08": ("sess", "7 C08", "seeded simulation in the default and the checks build: after every single operation no panic / fuel exhaustion, EGraph::check passes, every listed e-node looks up to its class, no e-node shape in two live classes, e-node slots cover class slots, find is idempotent; faults K1-K5 incl. mid-history probes and skipped path compression",
          "fuel limit 200000 rebuild ticks per operation stands in for non-termination; sampling"),
+ "C09": ("sess", "7 C09", "seeded sess histories followed by candidate terms that are known-present (alpha-renamed, injectively renamed, a subterm replaced by an M_cc-equal instance), known-absent or unknown: lookup_rec_expr succeeds exactly when add_expr creates no class, both agree with the existing invocation, returned slots = free slots minus M_cc-redundant ones, lookup leaves the fingerprint unchanged",
+         "M_cc decides 'already represented' and redundancy; sampling"),
+ "C10": ("grp+sess", "7 C10", "generator sets on up to 4 slots enumerated completely (quick: up to 2 generators on 4 slots, 3 on 3; thorough: all triples on 4 slots), random sets on 4-6 slots; through unions on a k-slot leaf (eq for every permutation of S_k after every union) and through the cfg-guarded group wrapper (contains, all_perms, count, orbit, add_set growth), each under sampled hash order, stride, naming, buggify and generator order, against brute-force subgroup closure",
+         "brute-force closure M_group; exhaustive only in the enumerated generator dimension, schedules are sampled"),
+ "C11": ("sess", "7 C11", "each seeded history is executed twice with identical knobs but different slot namings (numeric ascending vs reversed / textual / mixed / scrambled); sampled eq-matrix under all relative renamings, live classes, per-term kept slot sets and symmetry counts must agree",
+         "answer-level comparison only (internal orientation may differ); analysis data and extraction cost are compared in C14/C06 runs, not here; sampling"),
+ "C12": ("sess", "7 C12", "each seeded set of insertions and equations is executed in 4 schedules (given order and 3 seeded permutations of all steps with orientation flips, alternating hash orders); eq-matrix, live classes, per-term slot count and symmetry count must agree",
+         "cross-run agreement; sampling"),
+ "C13": ("sess", "7 C13", "history checker over long seeded histories (25 quick / 40 thorough operations): after every operation every invocation and every equal pair recorded earlier is re-queried (still equal, canonicalisable, alive, equal to itself), slot sets only shrink, progress moves lexicographically in the documented direction; skipped path compression and probes act on the old handles",
+         "extraction from old handles is covered by C06 runs; sampling of recorded pairs (<= 400 per run)"),
+ "C17": ("thr", "7 C17", "1-4 real threads under a baton scheduler that decides every context switch from an explicit schedule; programs of fresh / numeric / named with adversarial names / print-then-parse; per-thread slot-table model (fresh is new, names functional and injective, print-parse identity) and comparison of each thread's observations with the same program run alone",
+         "per-thread model M_slot; panics 'fresh slot counter exhausted' are legitimate (u32 counter); sampling"),
 }
 NOT_BUILT = {}
 NOT_APPLICABLE = {
@@ -49,7 +61,9 @@ def main():
             "add_only": True,
         },
         "engines": [
-            {"name": "sess", "path": "sim/src/sess.rs", "serves_properties": ["C01", "C02", "C08"], "kind_free_text": "one real EGraph driven by an explicit trace in a fresh thread; hash order, fresh stride, buggify, probes injected through cfg-guarded seams"},
+            {"name": "thr", "path": "sim/src/sched.rs", "serves_properties": ["C17"], "kind_free_text": "real OS threads parked and released one step at a time by a baton scheduler that follows the explicit schedule of the run"},
+            {"name": "grp", "path": "sim/src/checks/group.rs", "serves_properties": ["C10"], "kind_free_text": "direct exercise of the crate-private permutation group through the cfg-guarded VGroup wrapper"},
+            {"name": "sess", "path": "sim/src/sess.rs", "serves_properties": ["C01", "C02", "C08", "C09", "C11", "C12", "C13"], "kind_free_text": "one real EGraph driven by an explicit trace in a fresh thread; hash order, fresh stride, buggify, probes injected through cfg-guarded seams"},
         ],
         "checks": checks,
         "not_applicable": sorted(na, key=lambda x: x["property_id"]),
